@@ -41,6 +41,30 @@ Theorem c12_sync_equalises : forall a b,
 Proof. exact sync_equalises. Qed.
 Print Assumptions c12_sync_equalises.
 
+(* The exchange as it really runs over the StoreElements stream: the responder streams the requested values
+   newest-first (sortIdsNewestFirst), the initiator applies them in chunks of n = applyBatchSize, one SetRaw per chunk
+   plus a final one.  ANY stream carrying the same set of values as the pull list, cut into chunks of ANY size, leaves
+   the initiator exactly where one SetRaw of the whole pull list leaves it ... *)
+Theorem c12_stream_order_chunk_free : forall n st msgs pull,
+  inv st -> batch_ok pull -> (forall v, In v msgs <-> In v pull) -> distinct_ts (stored st ++ pull) ->
+  stream_apply n st [] msgs = fst (set_raw FNone st pull).
+Proof. exact stream_apply_set_raw. Qed.
+Print Assumptions c12_stream_order_chunk_free.
+
+(* ... so the streamed exchange IS the plain exchange, for every chunk size ... *)
+Theorem c12_stream_is_exchange : forall n a b,
+  inv a -> inv b -> distinct_ts (stored a ++ stored b) ->
+  sync_exchange_stream n a b = sync_exchange a b.
+Proof. exact sync_stream_eq. Qed.
+Print Assumptions c12_stream_is_exchange.
+
+(* ... and one streamed exchange makes the two stores EQUAL, whatever their sizes. *)
+Theorem c12_sync_stream_equalises : forall n a b,
+  inv a -> inv b -> distinct_ts (stored a ++ stored b) ->
+  let '(a', b') := sync_exchange_stream n a b in a' = b'.
+Proof. exact sync_stream_equalises. Qed.
+Print Assumptions c12_sync_stream_equalises.
+
 (* ---- failed writes ------------------------------------------------------------------------------------------ *)
 
 (* A SetRaw that returns an error (k-th UpsertOne, UpdateEntry or Commit failed) leaves collection AND index exactly
@@ -159,6 +183,30 @@ Example c12_sync_nonvacuous :
   a <> b /\ contents_of (fst (sync_exchange a b)) = [(1%N, 20%Z, 2%N); (2%N, 15%Z, 3%N)] /\
   fst (sync_exchange a b) = snd (sync_exchange a b).
 Proof. cbv zeta. split; [vm_compute; discriminate|]. split; vm_compute; reflexivity. Qed.
+
+(* streamed exchange with chunks of 2: three values are pulled newest-first (slots 1, 2, 4), applied by two SetRaw
+   calls; one value is pushed; both ends are equal afterwards *)
+Definition ex_v4 := mkValue 6 4 4 12 true true true true true.      (* slot 4, t=12 *)
+Definition ex_v5 := mkValue 7 5 5 11 true true true true true.      (* slot 5, t=11 *)
+
+Example c12_sync_stream_nonvacuous :
+  let a := fst (set_raw FNone empty_state [ex_v1; ex_v5]) in
+  let b := fst (set_raw FNone empty_state [ex_v4; ex_v2; ex_v3]) in
+  inv a /\ inv b /\ a <> b /\
+  newest_first (st_index b) (push_ids (st_index b) (st_index a)) = [1%N; 2%N; 4%N] /\
+  stream_apply 2 a [] [ex_v2; ex_v3; ex_v4] = fst (set_raw FNone (fst (set_raw FNone a [ex_v2; ex_v3])) [ex_v4]) /\
+  contents_of (fst (sync_exchange_stream 2 a b)) =
+    [(1%N, 20%Z, 2%N); (2%N, 15%Z, 3%N); (4%N, 12%Z, 6%N); (5%N, 11%Z, 7%N)] /\
+  fst (sync_exchange_stream 2 a b) = snd (sync_exchange_stream 2 a b).
+Proof.
+  cbv zeta.
+  assert (Hok : forall l, (forall v, In v l -> In v [ex_v1; ex_v2; ex_v3; ex_v4; ex_v5]) -> batch_ok l).
+  { intros l Hl v Hv. specialize (Hl v Hv). unfold ts_ok. cbn in Hl.
+    repeat (destruct Hl as [Hl|Hl]; [subst v; cbn; lia|]). destruct Hl. }
+  split; [apply set_raw_none_inv; [apply inv_empty | apply Hok; cbn; tauto]|].
+  split; [apply set_raw_none_inv; [apply inv_empty | apply Hok; cbn; tauto]|].
+  split; [vm_compute; discriminate|]. repeat split; vm_compute; reflexivity.
+Qed.
 
 Example c12_spec_nonvacuous :
   (* the predicate is not trivially true: it rejects a stale winner, a forged slot, an unauthorised writer,
